@@ -60,6 +60,18 @@ CLAIMED.update({
             "Trusted: power reference (~50 lines), 1e-9 relative; upper clip includes the published rate limit."),
 })
 
+CLAIMED.update({
+    "C04": ("dsp", "exploration",
+            "The real dispatcher (own scheduler kept) run on generated corridors (1-9 sidings, 3-270 km, sidings that fit and do not fit, lockout declarations) with 1-10 generated trains in both directions and departure times with deliberate ties; every scenario first runs the real make_est_times per train. The observer hook exposes link_disp_auths / links_blocked / TrainDisp state after every train move and before returning; on EVERY snapshot: disjoint occupancy windows [first-seen arrive_entry, clear_exit] of different trains on a segment and its reverse and on mutually exclusive segments, headway and ordering of followers, front behind the rear of the train ahead, blocked-link table consistent with the trains' own lists; on the returned plans the black-box necessary condition on front-occupancy intervals.",
+            "Trusted: occupancy reference (~120 lines), 1e-6 s / 1e-6 m slack; calibrated against the unchanged tree (650 + 20000 scenarios). The dispatcher serialises opposing traffic completely in this family (probe snapshots_with_opposing_trains_en_route stays 0) - that is its behaviour, reported as such."),
+    "C05": ("dsp", "exploration",
+            "Same runs plus degenerate ones (a train whose destination cannot be reached must be an error with a cause); Ok => one plan per train, starts on an origin at or after departure, ends on a destination, contiguous, times non-decreasing, never faster than the train's own free-running times (read through the final TrainDisp view against its EstTimeNet), plan = dispatcher's final path; Err => names trains; panics (incl. the repository's debug assertions), unsafe-precondition aborts (std checks live), hangs (200 k observer calls, wall-clock watchdog) are violations.",
+            "Trusted: plan reference (~90 lines); memory safety decided at the level 'no out-of-range unchecked access on any explored history'. Miri / ASan not run (DESIGN 6)."),
+    "C15": ("dsp", "exploration",
+            "Every EstTimeNet built in the dsp scenarios (0-9 alternative sidings, both directions): mutual link consistency, no dead end / cycle, 24 seeded start-to-end walks per graph (contiguous route origin -> destination, cleared after entered, in entry order), finite non-negative times and durations, time_sched = primary predecessor + duration and <= along alternates; yaml reload equal. Weak fit: the graph is a pure function of (train, network); checked where it is handed to the dispatcher (DESIGN 5).",
+            "Trusted: graph reference (~150 lines). Two open findings (negative time_sched on alternative branches; structural self-check panic on very short networks)."),
+})
+
 NOT_YET = {
     "C02": "check not built yet (planned in world trk, DESIGN 4)",
     "C03": "check not built yet (planned in world trn, DESIGN 4)",
